@@ -196,7 +196,11 @@ def doc_case(rng):
             e = rng.randint(b, len(t))
             anns.append({"view": vi, "b": b, "e": e, "indexed": rng.random() < 0.6})
     # every referenced-only annotation needs an indexed referrer in the same view
-    return {"t1": t1, "t2": t2, "t1b": t1b, "anns": anns}
+    # the annotation type's name, and optionally a NON-annotation type with the same short name in another package that has
+    # integer features `begin`/`end` of its own (never converted) and whose instance is written first
+    aname = rng.choice(["x.A", "x.A", "text.Span", "Span", "q.tcas.Annotation"])
+    twin = rng.random() < 0.5
+    return {"t1": t1, "t2": t2, "t1b": t1b, "anns": anns, "aname": aname, "twin": twin}
 
 
 def build_doc_cas(case):
@@ -205,12 +209,19 @@ def build_doc_cas(case):
     ts = TypeSystem()
     T = ts.create_type("x.Ref")
     ts.create_feature(T, "ref", "uima.tcas.Annotation")
-    A = ts.create_type("x.A")
+    A = ts.create_type(case.get("aname", "x.A"))
     cas = Cas(ts, sofa_string=case["t1"])
     v2 = cas.create_view("v2")
     v2.sofa_string = case["t2"]
     views = [cas, v2]
     objs = []
+    if case.get("twin"):
+        D = ts.create_type("meta." + case.get("aname", "x.A").rsplit(".", 1)[-1], "uima.cas.TOP")
+        ts.create_feature(D, "begin", "uima.cas.Integer")
+        ts.create_feature(D, "end", "uima.cas.Integer")
+        twin = D(begin=len(case["t1"]), end=len(case["t1"]) + 3)
+        cas.add(twin)
+        case["_twin_obj"] = twin
     for a in case["anns"]:
         v = views[a["view"]]
         fs = A(begin=a["b"], end=a["e"])
@@ -250,6 +261,16 @@ def check_doc_case(case, out, k=0):
         by_id = {int(el.get(XMI_NS + "id")): el for el in root if el.get(XMI_NS + "id") is not None}
         data = json.loads(js)
         jby = {fs["%ID"]: fs for fs in data["%FEATURE_STRUCTURES"]}
+        tw = case.pop("_twin_obj", None)
+        if tw is not None:
+            # begin/end of a structure that is not an annotation are plain integers in every document
+            el = by_id.get(tw.xmiID); jf = jby.get(tw.xmiID)
+            want = [len(case["t1"]), len(case["t1"]) + 3]
+            gx = None if el is None else [int(el.get("begin")), int(el.get("end"))]
+            gj = None if jf is None else [jf.get("begin"), jf.get("end")]
+            if gx != want or gj != want:
+                out.oracle_failures.append({"scenario": sc, "what": "integer features begin/end of a non-annotation structure were changed on writing",
+                                            "expected": want, "actual": [gx, gj]})
         for a, fs in zip(case["anns"], objs):
             t = texts[a["view"]]
             eb, ee = u16len(t[: a["b"]]), u16len(t[: a["e"]])
